@@ -521,10 +521,11 @@ def guard_specs(facts):
     add(facts.find(suffix="biguint::shift::biguint_shr"), "negative shift amount panics", [lit_cmp("Lt", "p2", ("call", "zero"), True)])
     # zero modulus / negative exponent
     add(facts.find(suffix="biguint::power::modpow"), "zero modulus panics", [lit_call("is_zero", ["p3"], True)])
-    add(facts.find(suffix="biguint::power::plain_modpow"), "zero modulus panics", [lit_call("is_zero", ["p3"], True)])
+    add(facts.find(suffix="biguint::power::plain_modpow"), "zero modulus panics", [lit_call("is_zero", ["p3"], True)], floor=0)
     add(facts.find(suffix="biguint::BigUint::modinv"), "zero modulus panics", [lit_call("is_zero", ["p2"], True)])
-    add(facts.find(suffix="bigint::power::modpow"), "zero modulus panics", [lit_call("is_zero", ["p3"], True)])
-    add(facts.find(suffix="bigint::power::modpow"), "negative exponent panics", [lit_call("is_negative", ["p2"], True)])
+    # the exported method, with its private helpers inlined (the guards live in bigint::power::modpow today)
+    add(facts.find(suffix="bigint::BigInt::modpow"), "zero modulus panics", [lit_call("is_zero", ["p3"], True)])
+    add(facts.find(suffix="bigint::BigInt::modpow"), "negative exponent panics", [lit_call("is_negative", ["p2"], True)])
     # roots
     add(facts.find(trait="num_integer::Roots", self_ty="biguint::BigUint", name="nth_root"), "zeroth root panics", [lit_cmp("Gt", "p2", 0, False)])
     add(facts.find(trait="num_integer::Roots", self_ty="bigint::BigInt", name="sqrt"), "square root of a negative panics", [lit_call("is_negative", ["p1"], True)])
@@ -1288,7 +1289,7 @@ def check_residue_complement(ctx, res, config="all"):
     facts = ctx.facts(config)
     targets = []
     targets += facts.find(suffix="bigint::BigInt::modinv")
-    targets += facts.find(suffix="bigint::power::modpow")
+    targets += facts.find(suffix="bigint::BigInt::modpow")  # exported method; its private helper (bigint::power::modpow) is inlined
     targets += facts.find(trait="num_integer::Integer", self_ty="bigint::BigInt", name="mod_floor")
     targets += facts.find(trait="num_integer::Integer", self_ty="bigint::BigInt", name="div_mod_floor")
     n = 0
@@ -1323,8 +1324,8 @@ def check_residue_complement(ctx, res, config="all"):
                         t["span"]["line"],
                     )
                 )
-    if n < 6:
-        res.fail(Finding("R3b-anchor-lost", "residue-complement", "only %d modulus-minus-residue sites found (floor 6)" % n, file="src/bigint.rs", line=0))
+    if len(targets) < 4 or n < 4:
+        res.fail(Finding("R3b-anchor-lost", "residue-complement", "only %d modulus-minus-residue sites in %d functions found (expected modpow, modinv, mod_floor, div_mod_floor with at least one each)" % (n, len(targets)), file="src/bigint.rs", line=0))
     res.clause("R3b: every modulus-minus-residue complement (mod_floor, div_mod_floor, modpow, modinv) is dominated by residue != 0")
 
 
@@ -1442,6 +1443,32 @@ def check_panic_site_table(ctx, res):
             if ce:
                 callers.setdefault(ce, set()).add(b.path)
 
+    def form_key(bd):
+        def unref(t_):
+            t_ = t_ or ""
+            while t_.startswith("&"):
+                t_ = t_[1:].lstrip()
+                if t_.startswith("mut "):
+                    t_ = t_[4:]
+            return t_
+
+        return (bd.trait, bd.name, unref(bd.self_ty), tuple(unref(a_) for a_ in bd.trait_args)) if bd.trait else None
+
+    def sibling_owns(path, kind, msg):
+        """another by-value / by-reference form of the same trait method owns this site in the inventory (the forms used to
+        forward to each other; C10 makes them behave alike)"""
+        bd = fa.body(path)
+        fk = form_key(bd) if bd is not None else None
+        if fk is None:
+            return False
+        for k_ in tab_c:
+            pb_, kd_, ms_ = k_.split("|", 2)
+            if (kd_, ms_) == (kind, msg) and pb_ != path:
+                ob = fa.body(pb_)
+                if ob is not None and form_key(ob) == fk:
+                    return True
+        return False
+
     def moved_from_callers(body, kind, msg):
         """the site sits in a private helper all of whose (transitive) callers are functions that own this very site in the
         reviewed inventory: the panic was moved into a helper, not added"""
@@ -1458,7 +1485,7 @@ def check_panic_site_table(ctx, res):
             if not cs:
                 return False
             for c_ in cs:
-                if tab_c.get("%s|%s|%s" % (c_, kind, msg), 0) > 0:
+                if tab_c.get("%s|%s|%s" % (c_, kind, msg), 0) > 0 or sibling_owns(c_, kind, msg):
                     roots.add(c_)
                 else:
                     cb = fa.body(c_)
